@@ -1883,37 +1883,26 @@ type PrimaryChangeEventData struct {
 var _ context.Context = (*primaryCtx)(nil)
 
 // primaryCtx represents a context that is marked done when the node loses its primary status.
+// It is built on a standard cancelable context so that context.Cause() reports
+// ErrLeaseExpired once the primary status is lost: with a hand-rolled Done
+// channel Cause() fell through to the parent's cause, which is nil while the
+// parent (e.g. an HTTP request) is still running, and callers such as
+// AcquireWriteLock returned "no error" without having obtained anything.
 type primaryCtx struct {
-	parent    context.Context
+	context.Context
 	primaryCh chan struct{}
-	done      chan struct{}
 }
 
 func newPrimaryCtx(parent context.Context, primaryCh chan struct{}) *primaryCtx {
-	ctx := &primaryCtx{
-		parent:    parent,
-		primaryCh: primaryCh,
-		done:      make(chan struct{}),
-	}
-
+	inner, cancel := context.WithCancelCause(parent)
 	go func() {
 		select {
-		case <-ctx.primaryCh:
-			close(ctx.done)
-		case <-ctx.parent.Done():
-			close(ctx.done)
+		case <-primaryCh:
+			cancel(ErrLeaseExpired)
+		case <-inner.Done():
 		}
 	}()
-
-	return ctx
-}
-
-func (ctx *primaryCtx) Deadline() (deadline time.Time, ok bool) {
-	return ctx.parent.Deadline()
-}
-
-func (ctx *primaryCtx) Done() <-chan struct{} {
-	return ctx.done
+	return &primaryCtx{Context: inner, primaryCh: primaryCh}
 }
 
 func (ctx *primaryCtx) Err() error {
@@ -1921,12 +1910,8 @@ func (ctx *primaryCtx) Err() error {
 	case <-ctx.primaryCh:
 		return ErrLeaseExpired
 	default:
-		return ctx.parent.Err()
+		return ctx.Context.Err()
 	}
-}
-
-func (ctx *primaryCtx) Value(key any) any {
-	return ctx.parent.Value(key)
 }
 
 // removeFilesExcept removes all files from a directory except a given filename.
